@@ -270,6 +270,11 @@ struct St {
 pub struct World {
     st: Mutex<St>,
     done: Condvar,
+    /// client handles a scenario wants to outlive its session without running their `Drop`
+    /// during it (a `Channel` closes itself when dropped): kept here and dropped by the explorer
+    /// after the execution, once the I/O thread is gone. (`mem::forget` would leak the readiness
+    /// pipe each handle keeps alive: two descriptors per execution.)
+    graveyard: Mutex<Vec<Box<dyn std::any::Any + Send>>>,
 }
 
 fn hash_labels(kind: &PointKind, labels: &[String]) -> u64 {
@@ -731,6 +736,7 @@ impl World {
                 record_labels,
             }),
             done: Condvar::new(),
+            graveyard: Mutex::new(Vec::new()),
         })
     }
 
@@ -945,6 +951,21 @@ impl World {
         let r = st.truthful_ready();
         if let Some(sr) = &st.tr.set_readiness {
             let _ = sr.set_readiness(r);
+        }
+    }
+
+    pub fn keep<T: Send + 'static>(&self, x: T) {
+        self.graveyard.lock().unwrap_or_else(|e| e.into_inner()).push(Box::new(x));
+    }
+
+    /// Drop what `keep` collected. Only safe once the I/O thread is gone (a handle's `Drop` then
+    /// fails fast instead of waiting for a reply); otherwise the handles are leaked.
+    pub fn bury(&self, io_thread_gone: bool) {
+        let v = std::mem::take(&mut *self.graveyard.lock().unwrap_or_else(|e| e.into_inner()));
+        if io_thread_gone {
+            drop(v);
+        } else {
+            std::mem::forget(v);
         }
     }
 
